@@ -99,6 +99,7 @@ def gen_run(rng, solver='panoc', **over):
     if rng.random() < 0.34:
         over = dict(over, dir='adv', advinit=rng.randint(0, 1))
     op = LP.LOOPS[solver]['gen_run'](rng, solver=solver, **over)
+    S.vary_all(rng, op, 'panoc')             # β, Lγ, line-search coefficients, Lipschitz steps, L_min / L_max, Σ, tolerance classes
     # a few runs with a tiny L_max so that `L ≥ L_max` is reached, and with a large initial L
     r = rng.random()
     if r < 0.05:
@@ -112,6 +113,7 @@ def gen_run(rng, solver='panoc', **over):
 
 def gen_run_zerofpr(rng, mod):
     op = mod.gen_run(rng, wild=rng.random() < 0.12)
+    S.vary_all(rng, op, 'zerofpr')
     if rng.random() < 0.75:          # its own generator already mixes {10ε, 0, 1e-3} for both
         draw_margins(rng, op)
     if rng.random() < 0.2:
@@ -123,6 +125,7 @@ def gen_run_zerofpr(rng, mod):
 
 def gen_run_pantr(rng, mod):
     op = mod.gen_run(rng)
+    S.vary_all(rng, op, 'pantr')
     if rng.random() < 0.75:
         draw_margins(rng, op, ls_key='trtol')
     if rng.random() < 0.2:
@@ -132,9 +135,8 @@ def gen_run_pantr(rng, mod):
 
 def gen_run_ocp(rng, mod):
     op = mod.gen_run(rng)
+    S.vary_all(rng, op, 'ocp')
     draw_margins(rng, op)
-    op['Lgf'] = C.f2h(rng.choice([0.95, 0.95, 0.5, 1.0]))
-    op['beta'] = C.f2h(rng.choice([0.95, 0.95, 0.5, 1.0]))
     if rng.random() < 0.2 and op.nat('crit') in (2, 3, 4, 5, 6, 7):
         near_convergence(rng, op)
     return op
@@ -173,8 +175,9 @@ def nonfinite_cause(op, cb):
     return NaN), `overflow_range` (iterate beyond 1e60: the quartic / its gradient overflow binary64), `other`."""
     if op.nat('nanat', 0) != 0 and any(v != v for v in (cb['psi'], cb['psi_hat'], cb['fbe'])):
         return 'nan_injected'
-    pts = cb['x'] + cb['xhat']
-    if any(not math.isfinite(a) or abs(a) > 1e60 for a in pts):
+    # PANOC-OCP: the states of the roll-out (xu, x̂u) and the cost grow with bilinear dynamics at moderate inputs
+    pts = cb['x'] + cb['xhat'] + cb.get('xu', []) + cb.get('xuhat', []) + [cb['psi'], cb['psi_hat']]
+    if any(a == a and (not math.isfinite(a) or abs(a) > 1e60) for a in pts):
         return 'overflow_range'
     return 'other'
 
@@ -622,7 +625,7 @@ def adapters():
 
 def solver_monitor(solver, o, h, st):
     if h.startswith('S exception'):
-        return None
+        return None                      # multiloop reports an exception outside the declared throwing classes
     m = monitor_pantr(o, h, st) if solver.name == 'pantr' else monitor(o, h, st, flavor=solver.name)
     # φγ, ψ, ∇ψ, p, x̂, γ of every reported iterate are what they claim to be (exact, from the problem data)
     return m or LM.iterate_consistency(solver.name, o, h, 'C05', bump)
@@ -633,8 +636,11 @@ def main(argv):
     sols = adapters()
     per = {}
 
+    cover = S.Coverage()
+
     def mon(solver, o, h, st):
         before = dict(COUNTS)
+        cover.add(solver.name, o, h)
         try:
             return solver_monitor(solver, o, h, st)
         finally:
@@ -659,10 +665,11 @@ def main(argv):
                 for k in need.get(s.name, ()):
                     if per.get(s.name, {}).get(k, 0) == 0:
                         broken.append(f'[{s.name}] monitor never exercised: {k}')
+        cover.report(rep, broken, tier, [s.name for s in sols if rep.cov.get('per_solver', {}).get(s.name, {}).get('runs')])
 
     return multiloop.loop_check(
         'C05', argv, monitor=mon, nontrivial=nontrivial, solvers=sols, extra_stage=extra,
-        n_quick=1600, n_thorough=24000, sweep_quick=0, sweep_thorough=0,
+        n_quick=1600, n_thorough=12000, sweep_quick=0, sweep_thorough=0,
         trusted_base=[
             'Lean 4.33 kernel + Mathlib (axioms: propext, Classical.choice, Quot.sound)',
             'translator gen_c05 (fbe, qub_violated, linesearch_violated of panoc / zerofpr / panoc-ocp .tpp, '
